@@ -105,7 +105,7 @@ PROPS = {
         "level_text": "narrow: panic-freedom of the pure helper fragments that can be cut out of the generator; the string builders are a BOUNDED check (ASCII tail <= 14 bytes), the selection arithmetic is proved",
         "trusted": ["rustc's proc-macro printer renders the attribute meta as `Name` / `Name(...)` with no space before `(` (measured through the real macro)"],
         "assumptions": ["narrow: parsing, `unwrap()` on get_ident(), `parse2(..).unwrap()`, recursion depth and termination of everything driven by syn are NOT decided",
-                        "call-site precondition: for Hash/PartialEq on a union every parameter other than `unsafe` is rejected before the builder runs, so s is `Name` or `Name()`",
+                        "call-site precondition: for Hash/PartialEq on a union every parameter other than `unsafe` is rejected before the builder runs, so s is `Name`, `Name()`, `Name {}` or `Name []` (the three list delimiters, as rustc renders them)",
                         "non-ASCII text can only occur inside the parenthesised tail, beyond every index the builders touch"],
         "explanation": "union_without_unsafe string surgery cannot panic under the call-site precondition (bounded); discriminant width selection fits and is minimal, min/max/counter step cannot overflow (proved)",
     },
